@@ -575,10 +575,11 @@ pub fn run_parent(prop: &'static dyn Property, tier: Tier, seed: u64) -> Outcome
         "shards": NSHARDS,
         "shards_reported": reports.len(),
         "notes": notes,
-        "build": format!("release, opt-level=2, debug-assertions=on, overflow-checks=on, allsorts features: outline + {} + verif-hooks + prince", backend),
+        "build": format!("release, opt-level=2, debug-assertions=on, overflow-checks=on, allsorts features: outline + {} + {} + prince", backend, if cfg!(feature = "hooks") { "verif-hooks" } else { "NO verif-hooks" }),
     });
     if let Some(x) = extra {
-        coverage["second_build"] = x;
+        let key = if x.get("miri").is_some() { "miri_sample" } else { "second_build" };
+        coverage[key] = x;
     }
     if let Some(f) = fuzz {
         coverage["fuzz"] = f;
